@@ -567,6 +567,7 @@ func run(c *props.Ctx) {
 	c.R.Traces = c.R.Evaluations
 	if c.Shard == 0 {
 		keepsStatistics(c)
+	keepsStatisticsRatio(c)
 		stepwiseEqualsAtOnce(c)
 	}
 }
@@ -817,6 +818,53 @@ func keepsStatistics(c *props.Ctx) {
 			c.R.Violate(report.Violation{Signature: "C14:circuit-breaker:modified-rule-loses-statistics",
 				What:     fmt.Sprintf("breaker threshold 2 -> 3 (same statistic parameters) reloaded after one error (per-resource=%v): three more failing requests gave %s, with the error kept the third must be rejected (PPB)", per, tr),
 				Scenario: "keeps-statistics", Replay: map[string]interface{}{"subject": "keep-cb", "per": per}})
+		}
+	}
+}
+
+// keepsStatisticsRatio: the two ratio strategies - three bad requests, a reload that changes only the retry
+// timeout (not a statistic parameter), a fourth bad request reaches the minimum amount: the breaker opens.
+func keepsStatisticsRatio(c *props.Ctx) {
+	for _, strat := range []cb.Strategy{cb.ErrorRatio, cb.SlowRequestRatio} {
+		for _, per := range []bool{false, true} {
+			env.ResetAll(env.DefaultGeometry, T0)
+			mk := func(retry uint32) []*cb.Rule {
+				return []*cb.Rule{{Id: "X", Resource: "r", Strategy: strat, RetryTimeoutMs: retry, MinRequestAmount: 4, StatIntervalMs: 5000, Threshold: 0.5, MaxAllowedRtMs: 10}}
+			}
+			if _, err := cb.LoadRules(mk(100000)); err != nil {
+				panic(err)
+			}
+			bad := func() string {
+				e, blk := sentinel.Entry("r")
+				if blk != nil {
+					return "B"
+				}
+				if strat == cb.SlowRequestRatio {
+					env.Clock.AdvanceMs(20)
+					e.Exit()
+				} else {
+					e.Exit(base.WithError(bizErr))
+				}
+				return "P"
+			}
+			tr := bad() + bad() + bad()
+			var err error
+			if per {
+				_, err = cb.LoadRulesOfResource("r", mk(200000))
+			} else {
+				_, err = cb.LoadRules(mk(200000))
+			}
+			if err != nil {
+				panic(err)
+			}
+			tr += "|" + bad() + bad()
+			c.R.Evaluations++
+			c.R.Outcome(fmt.Sprintf("keep-cb-ratio|%v|%v|%s", strat, per, tr))
+			if tr != "PPP|PB" {
+				c.R.Violate(report.Violation{Signature: "C14:circuit-breaker:modified-rule-loses-statistics",
+					What:     fmt.Sprintf("breaker (%v, minimum 4 requests, ratio 0.5) reloaded with another retry timeout after three bad requests (per-resource=%v): requests gave %s, with the counts kept the fourth bad request opens the breaker (PPP|PB)", strat, per, tr),
+					Scenario: "keeps-statistics", Replay: map[string]interface{}{"subject": "keep-cb-ratio", "strategy": fmt.Sprint(strat), "per": per}})
+			}
 		}
 	}
 }
